@@ -1,17 +1,17 @@
 #!/bin/bash
 # tools/confirm_seed.sh <worktree> <seeddir> : independent confirmation of a seeded change.
 # applies patch -> build -> ctest (must pass) -> demo (must FAIL); reverts -> build -> demo (must PASS)
-WT=$1; SD=$2
+WT=$1; SD=$(readlink -f $2); L=/tmp/confirm_$(basename $SD)
 cd $WT || exit 2
 git checkout -q -- . ; git apply --check $SD/patch.diff || { echo "CONFIRM: patch does not apply"; exit 2; }
 git apply $SD/patch.diff
-cmake --build _build -j8 > /tmp/confirm_build.log 2>&1 || { echo "CONFIRM: build failed with patch"; git checkout -q -- .; exit 2; }
-ctest --test-dir _build -j8 --timeout 900 > /tmp/confirm_ctest.log 2>&1; T=$?
-echo "CONFIRM: ctest with patch exit=$T ($(grep -c Passed /tmp/confirm_ctest.log) passed)"
-(cd $SD && BXDECAY0_RESOURCE_DIR=$WT/resources timeout 600 bash ./run.sh > /tmp/confirm_demo_with.log 2>&1); W=$?
+cmake --build _build -j8 > ${L}_build.log 2>&1 || { echo "CONFIRM: build failed with patch"; git checkout -q -- .; exit 2; }
+ctest --test-dir _build -j8 --timeout 900 > ${L}_ctest.log 2>&1; T=$?
+echo "CONFIRM: ctest with patch exit=$T ($(grep -c Passed ${L}_ctest.log) passed)"
+(cd $SD && BXDECAY0_RESOURCE_DIR=$WT/resources timeout 600 bash ./run.sh > ${L}_demo_with.log 2>&1); W=$?
 echo "CONFIRM: demo with patch exit=$W (expect non-zero)"
 git checkout -q -- .
-cmake --build _build -j8 > /tmp/confirm_build2.log 2>&1
-(cd $SD && BXDECAY0_RESOURCE_DIR=$WT/resources timeout 600 bash ./run.sh > /tmp/confirm_demo_without.log 2>&1); O=$?
+cmake --build _build -j8 > ${L}_build2.log 2>&1
+(cd $SD && BXDECAY0_RESOURCE_DIR=$WT/resources timeout 600 bash ./run.sh > ${L}_demo_without.log 2>&1); O=$?
 echo "CONFIRM: demo without patch exit=$O (expect 0)"
 if [ $T -eq 0 ] && [ $W -ne 0 ] && [ $O -eq 0 ]; then echo "CONFIRM: OK"; exit 0; else echo "CONFIRM: NOT CONFIRMED"; exit 1; fi
